@@ -209,12 +209,14 @@ def check_case(case):
     size = case.get("size", 80)
     changed_any = {}
     combos = case.get("combos") or list(itertools.product([0, 1], repeat=5))
+    ctx = dict(case.get("context") or {})
     for bits in combos:
         opts = base_opts(bits, size)
+        opts.update(ctx)  # parameters that are no documented option of the property but form the surroundings in which an option is toggled
         for ti, toggle in enumerate(TOGGLES):
             if bits[ti]:
                 continue  # each unordered pair once: toggle from the 'off' side
-            sub = {"source": src, "size": size, "combos": [list(bits)], "toggle": toggle}
+            sub = {"source": src, "size": size, "combos": [list(bits)], "toggle": toggle, "context": ctx}
             ch = check_toggle(src, opts, toggle, size, sub)
             if ch:
                 changed_any[toggle] = changed_any.get(toggle, 0) + 1
@@ -293,6 +295,16 @@ def cases(draw, switches, all_combos=False):
     c["paren_unary"] = "paren_unary" in switches
     if not all_combos:
         c["combos"] = draw(st.lists(st.tuples(*[st.integers(0, 1)] * 5).map(list), min_size=4, max_size=4, unique_by=tuple))
+    # surroundings: the rarely used parameters of convert() and a per-name size map
+    ctx = {}
+    if draw(st.integers(0, 3)) == 0:
+        ctx["add_standard_prefix"] = False
+    if draw(st.integers(0, 3)) == 0:
+        ctx["add_suffix"] = False
+    if draw(st.integers(0, 2)) == 0:
+        ctx["string_configs"] = draw(st.dictionaries(st.sampled_from(["A$", "B$", "S$", "NM$", "DA$", "DB$()", "DC$()", "P$()", "G$()"]), st.sampled_from([1, 10, 33, 200]), min_size=1, max_size=3))
+    if ctx:
+        c["context"] = ctx
     return c
 
 
